@@ -676,6 +676,72 @@ def config_descriptions(ctx: Ctx, sink: Sink, I: Impl, orbits: list):
     ctx.extra["config_descriptions"] = n
 
 
+# ------------------------------------------- in-range angles whose SUM spans several revolutions
+SUM_ANGLES_DEG = (0.0, 30.0, 180.0, 200.0, 250.0, 300.0, 330.0, 340.0, 350.0, 359.999)
+
+
+def angle_sum_multiples(ctx: Ctx, sink: Sink, I: Impl):
+    """singularityCheck / ClassicalElements / COEStateConfig with node, perigee and anomaly angles that are each
+    inside [0, 2 pi) but whose class-specific combination (OrbitLattice.tla, EquatorialSplit: direct
+    lon = raan + argp (+ anomaly), retrograde lon = argp (+ anomaly) - raan; inclined circular argp + anomaly)
+    reaches every multiple of a turn the class allows: just below 6 pi (direct circular equatorial), 4 pi
+    (two terms), negative (retrograde).  Every documented-range angle must lie in [0, 2 pi), the composite must
+    equal the combination modulo a turn, the constructor must keep the orbit (toECI = coe2eci of the raw
+    angles) and fromECI(toECI()) must give the same elements."""
+    CE, c = I.el.ClassicalElements, I.c
+    classes = (("IE", 0.3, 1.0), ("EE", 0.3, 0.0), ("EE-retro", 0.3, math.pi), ("IC", 0.0, 1.0),
+               ("EC", 0.0, 0.0), ("EC-retro", 0.0, math.pi))
+    slots = {"IE": ("right_ascension", "argument_periapsis", "true_anomaly")}
+    n = 0
+    for name, ecc, inc in classes:
+        sg = -1.0 if name.endswith("retro") else 1.0
+        for a_d in SUM_ANGLES_DEG:
+            for b_d in SUM_ANGLES_DEG:
+                for c_d in SUM_ANGLES_DEG:
+                    raan, argp, anom = math.radians(a_d), math.radians(b_d), math.radians(c_d)
+                    n += 1
+                    ctx.case(("anglesum", name, a_d, b_d, c_d), nontrivial=True)
+                    rp = {"class": name, "ecc": ecc, "inc": inc, "raan_deg": a_d, "argp_deg": b_d, "anomaly_deg": c_d}
+                    if name == "IE":
+                        want = (raan, argp, anom)
+                    elif name.startswith("EE"):
+                        want = (0.0, argp + sg * raan, anom)
+                    elif name == "IC":
+                        want = (raan, 0.0, anom + argp)
+                    else:
+                        want = (0.0, 0.0, anom + argp + sg * raan)
+                    try:
+                        out = I.u.singularityCheck(ecc, inc, raan, argp, anom)
+                        ce = CE(8000.0, ecc, inc, raan, argp, anom)
+                        for fn, vals in (("singularityCheck", out), ("ClassicalElements", (ce.raan, ce.argp, ce.true_anomaly))):
+                            for nm, got, exp in zip(("raan", "argp", "anomaly"), vals, want):
+                                _range_check(sink, f"{fn}[{name}]", nm, got, rp)
+                                if O.ang_diff(float(got), exp) > 1e-9:
+                                    sink.fail(f"angle-sum-value-{fn}-{name}", f"{fn}: {nm} = {math.degrees(got):.6f} deg for (raan, argp, anomaly) = "
+                                              f"({a_d}, {b_d}, {c_d}) deg on a {name} orbit; expected {math.degrees(exp) % 360.0:.6f} deg", rp)
+                        _range_check(sink, f"ClassicalElements[{name}]", "mean_anomaly", ce.mean_anomaly, rp)
+                        x_raw = c.coe2eci(8000.0, ecc, inc, raan, argp, anom)
+                        x_obj = ce.toECI()
+                        if not _close(x_obj, x_raw, 1e-11):
+                            sink.fail(f"angle-sum-constructor-moves-orbit-{name}", f"ClassicalElements(raan, argp, anomaly = {a_d}, {b_d}, {c_d} deg).toECI() "
+                                      f"differs from coe2eci of the same elements by {_rel(x_obj, x_raw)[0]:.3g} |r|", rp)
+                        back = CE.fromECI(x_obj)
+                        for nm in ("raan", "argp", "true_anomaly"):
+                            _range_check(sink, f"ClassicalElements.fromECI[{name}]", nm, getattr(back, nm), rp)
+                            if O.ang_diff(float(getattr(back, nm)), float(getattr(ce, nm))) > TOL_ANGLE:
+                                sink.fail(f"angle-sum-fromECI-differs-{name}", f"ClassicalElements.fromECI(obj.toECI()).{nm} = {getattr(back, nm)!r} but obj.{nm} = "
+                                          f"{getattr(ce, nm)!r} for (raan, argp, anomaly) = ({a_d}, {b_d}, {c_d}) deg", rp)
+                        if n % 5 == 0:       # the same three fields through the configuration object (full classical set)
+                            kw = {"semi_major_axis": 8000.0, "eccentricity": ecc, "inclination": math.degrees(inc),
+                                  "right_ascension": a_d, "argument_periapsis": b_d, "true_anomaly": c_d}
+                            if not _close(I.sc.COEStateConfig(**kw).toECI(EPOCH), x_raw, 1e-11):
+                                sink.fail(f"angle-sum-config-moves-orbit-{name}", f"COEStateConfig({a_d}, {b_d}, {c_d} deg).toECI() differs from coe2eci of the same elements", rp)
+                    except Exception as ex:  # noqa: BLE001
+                        sink.fail(f"angle-sum-exception-{name}-{type(ex).__name__}", f"angles ({a_d}, {b_d}, {c_d}) deg raised {ex!r}", rp)
+    ctx.traces_validated += n
+    ctx.extra["angle_sum_triples"] = n
+
+
 # --------------------------------------------------- seam arguments of every documented-range angle
 def seam_arguments(ctx: Ctx, sink: Sink, I: Impl):
     """Angles a few ulps below zero / around a whole turn (and multiples) handed to everything that documents
@@ -826,7 +892,10 @@ def _relations(sink: Sink, I: Impl, x, mu, cls, cases, tag: str, rp: dict, allow
             if not _close(c.eqe2eci(*eq, mu=mu, retro=flag), x, TOL_EQE_RT):
                 sink.fail(f"eqe-roundtrip-{tag}-{case}", f"eqe2eci(eci2eqe(x)) with retro={flag} is not x", rp)
             if flag == (inc > 0.5 * math.pi) or retro_eq:
-                if not _close(c.coe2eci(*c.eqe2coe(*eq, retro=flag), mu=mu), x, 1e-7, allow):
+                coe_q = c.eqe2coe(*eq, retro=flag)
+                for name, val in zip(("raan", "argp", "anomaly"), coe_q[3:]):
+                    _range_check(sink, "eqe2coe", name, val, rp)
+                if not _close(c.coe2eci(*coe_q, mu=mu), x, 1e-7, allow):
                     sink.fail(f"{pre}eqe2coe-disagrees-{tag}-{case}", f"coe2eci(eqe2coe(eci2eqe(x))) with retro={flag} is not x", rp)
                 if not _close(c.eqe2eci(*c.coe2eqe(*coe, retro=flag), mu=mu, retro=flag), x, TOL_ACOS, allow):
                     sink.fail(f"{pre}coe2eqe-disagrees-{tag}-{case}", f"eqe2eci(coe2eqe(eci2coe(x))) with retro={flag} is not x", rp)
@@ -1000,6 +1069,8 @@ def run(ctx: Ctx):
         "the toECI() of a freshly built object with the same fields to 1e-13 relative; derivations change values inside one accepted field combination",
         "seam arguments: angles within 3 ulps of 0, +-2 pi, 4 pi, pi and -1e-17 / denormals handed to both element classes (all four singular cases and both senses), "
         "singularityCheck, eqe2coe, coe2eqe and all anomaly / longitude functions: results in [0, 2 pi) and equal to the argument modulo a turn (1e-9)",
+        "angle sums: the expected composite angle is the class's combination (EquatorialSplit of the specification) of the posed in-range angles modulo a turn (1e-9); "
+        "fromECI(toECI()) is compared element-wise on the circle (5e-7), not with the class's == (isclose would split 0 / 2 pi)",
         "the prograde equinoctial set of an exactly equatorial retrograde state does not exist: raising (InclinationError is what the docstrings announce) is accepted, "
         "non-finite values without an exception are a violation; near-singular states (1 + w_z tiny but not zero) are not posed",
     ]
@@ -1015,6 +1086,7 @@ def run(ctx: Ctx):
     seeded_generic(ctx, sink, impl, cases, rng)
     seeded_anomalies(ctx, sink, impl, rng)
     seam_arguments(ctx, sink, impl)
+    angle_sum_multiples(ctx, sink, impl)
     retro_guard(ctx, sink, impl, orbits)
     config_lifecycles(ctx, sink, impl, orbits)
     config_descriptions(ctx, sink, impl, orbits)
